@@ -142,6 +142,39 @@ theorem malformed_offer_rejected (s : State σ ρ) (k : Key) (version : Option S
     step prep s (.offer k version spec sys c) = (s, .typeError) :=
   step_offer_bad prep s k version spec sys c h
 
+/-- The cache is keyed by (kind, name) and versioned by `metadata.resourceVersion` alone: two metadata
+    objects that agree on name and resourceVersion are the same operation, whatever `generation`, uid,
+    labels, annotations, managedFields or timestamps they carry — for offers and for deletes by metadata. -/
+theorem metadata_beyond_name_and_version_irrelevant (kind : Nat) (m m' : Meta) (spec : σ) (sys : Option Nat)
+    (c : Bool) (hn : m.name = m'.name) (hv : m.resourceVersion = m'.resourceVersion) (s : State σ ρ) :
+    step prep s (offerOf kind m spec sys c) = step prep s (offerOf kind m' spec sys c) ∧
+    step prep s (deleteMetaOf kind m) = step prep s (deleteMetaOf kind m') := by
+  simp [offerOf, deleteMetaOf, hn, hv]
+
+/-- in particular a new resourceVersion under an unchanged `generation` (a label, annotation or status
+    write) is a new version: it is prepared again -/
+theorem same_generation_new_version_reprepared (s : State σ ρ) (kind : Nat) (name v v' : String) (g : Nat)
+    (others others' : List (String × String)) (spec spec' : σ) (sys : Option Nat)
+    (hn : name ≠ "") (hv : v ≠ "") (hv' : v' ≠ "") (hne : v ≠ v') :
+    let s1 := (step prep s (offerOf kind ⟨some name, some v, some g, others⟩ spec sys false)).1
+    (step prep s1 (offerOf kind ⟨some name, some v', some g, others'⟩ spec' sys false)).2 =
+      .returned (prep kind name spec') s1.calls true := by
+  intro s1
+  have hk : ((kind, name) : Key).2 ≠ "" := hn
+  have hm : validMeta (kind, name) (some v) = true := (validMeta_iff _ _).mpr ⟨hk, v, rfl, hv⟩
+  have hfind : ∃ e, find? s1.cache (kind, name) = some e ∧ e.version = v := by
+    show ∃ e, find? (step prep s (offerOf kind ⟨some name, some v, some g, others⟩ spec sys false)).1.cache
+      (kind, name) = some e ∧ e.version = v
+    simp only [offerOf, Option.getD_some]
+    rcases step_offer_cases prep s (kind, name) (some v) spec sys false with ⟨hb, _⟩ | ⟨e, _, he, hver, h⟩ | ⟨_, _, h⟩
+    · rw [hm] at hb; cases hb
+    · rw [h]; exact ⟨e, he, hver⟩
+    · rw [h]; exact ⟨⟨spec, prep kind name spec, s.calls, v, sys⟩, by simp, rfl⟩
+  obtain ⟨e, he, hver⟩ := hfind
+  have := new_version_reprepared prep s1 (kind, name) v' spec' sys false hk hv'
+    (by intro e' he'; rw [he] at he'; cases he'; rw [hver]; exact hne)
+  simpa [offerOf] using this.1
+
 /-! ## lookups -/
 
 /-! `Quiet k v op` (in `Koreo/Cache.lean`): `op` cannot change what is cached for `k` while it holds
